@@ -27,7 +27,7 @@ PROPS["C10"] = dict(
              quick=dict(shards=8, checks=12000, timeout=900),
              thorough=dict(shards=16, checks=60000, timeout=3000)),
         dict(name="conc", run="^TestQueueConcurrent$", quick=dict(shards=2, checks=150, timeout=600), thorough=dict(shards=4, checks=6000, timeout=1800)),
-        dict(name="conc-race", run="^TestQueueConcurrent$", race=True, quick=dict(shards=2, checks=40, timeout=900), thorough=dict(shards=4, checks=1500, timeout=1800)),
+        dict(name="conc-race", run="^TestQueueConcurrent$", race=True, quick=dict(shards=2, checks=40, timeout=900), thorough=dict(shards=8, checks=200, timeout=1800)),
     ],
     required_labels=dict(both=["TestQueueModel/enqueue-after-reinsert", "TestQueueModel/equal-length-coexist",
                                "TestQueueModel/prune", "TestQueueModel/reset", "TestQueueModel/emptied-by-get",
@@ -64,7 +64,7 @@ PROPS["C01"] = dict(
              thorough=dict(shards=15, checks=6400, timeout=3000)),
         # the node's own timer against a refutation that is accepted while the expiry is being carried out: the death notice it was about to issue is stale by then
         dict(name="window", pkg="./props/c06", run="^TestRefutationInsideExpiry$", quick=dict(shards=1, checks=14, timeout=600), thorough=dict(shards=2, checks=400, timeout=3000)),
-        dict(name="stale-race", run="^TestStaleClaims$", race=True, quick=dict(shards=1, checks=40, timeout=900), thorough=dict(shards=2, checks=1200, timeout=3000)),
+        dict(name="stale-race", run="^TestStaleClaims$", race=True, quick=dict(shards=1, checks=40, timeout=900), thorough=dict(shards=6, checks=250, timeout=3000)),
     ],
     assumptions=PUPPET_ASSUMPTIONS + [
         "a record first seen already dead (created by an alive at incarnation 0) has unknown age and may be reclaimed at once when a reclaim time is set",
@@ -90,7 +90,7 @@ PROPS["C02"] = dict(
              quick=dict(shards=14, checks=340, timeout=600),
              thorough=dict(shards=14, checks=9000, timeout=3000)),
         dict(name="fire", run="^TestStartupUnderFire$", quick=dict(shards=2, checks=30, timeout=600), thorough=dict(shards=2, checks=2500, timeout=3000)),
-        dict(name="self-race", run="^TestSelfDefence$", race=True, quick=dict(shards=1, checks=40, timeout=900), thorough=dict(shards=2, checks=1200, timeout=3000)),
+        dict(name="self-race", run="^TestSelfDefence$", race=True, quick=dict(shards=1, checks=40, timeout=900), thorough=dict(shards=6, checks=250, timeout=3000)),
     ],
     assumptions=PUPPET_ASSUMPTIONS + [
         "alive claims about the node carry its own address (a different address is the conflict case of C08)",
@@ -113,7 +113,7 @@ PROPS["C18"] = dict(
         dict(name="allow", run="^TestAllowlist$",
              quick=dict(shards=15, checks=320, timeout=600),
              thorough=dict(shards=15, checks=8500, timeout=3000)),
-        dict(name="allow-race", run="^TestAllowlist$", race=True, quick=dict(shards=1, checks=40, timeout=900), thorough=dict(shards=2, checks=1200, timeout=3000)),
+        dict(name="allow-race", run="^TestAllowlist$", race=True, quick=dict(shards=1, checks=40, timeout=900), thorough=dict(shards=6, checks=250, timeout=3000)),
     ],
     assumptions=PUPPET_ASSUMPTIONS + [
         "a non-nil empty allowlist means allow-all (pinned by IPMustBeChecked and Test_IsValidAddressOverride), so only non-empty lists are generated",
@@ -223,8 +223,8 @@ PROPS["C07"] = dict(
              quick=dict(shards=8, checks=40, timeout=900),
              thorough=dict(shards=8, checks=1200, timeout=3400)),
         # the same histories under the race detector: a membership transition that runs outside the node lock is reported even when no callback happened to overlap
-        dict(name="log-race", run="^TestEventLog$", race=True, quick=dict(shards=2, checks=60, timeout=900), thorough=dict(shards=3, checks=1500, timeout=3400)),
-        dict(name="logc-race", run="^TestEventLogCluster$", race=True, quick=dict(shards=2, checks=10, timeout=900), thorough=dict(shards=3, checks=300, timeout=3400)),
+        dict(name="log-race", run="^TestEventLog$", race=True, quick=dict(shards=2, checks=60, timeout=900), thorough=dict(shards=6, checks=250, timeout=3400)),
+        dict(name="logc-race", run="^TestEventLogCluster$", race=True, quick=dict(shards=2, checks=10, timeout=900), thorough=dict(shards=8, checks=30, timeout=3400)),
     ],
     required_labels=dict(both=["TestEventLog/claim-about-self", "TestEventLog/claim-about-self-after-leave"]),
     assumptions=PUPPET_ASSUMPTIONS + ["the event delegate cannot call Members() itself (it runs under the node lock), so faithfulness is checked at quiescent points"],
@@ -277,7 +277,7 @@ PROPS["C08"] = dict(
         dict(name="leaver", run="^TestLeaver$",
              quick=dict(shards=5, checks=1400, timeout=600),
              thorough=dict(shards=5, checks=70000, timeout=3000)),
-        dict(name="race", run="^(TestLeaveFinalAndHijack|TestLeaver)$", race=True, quick=dict(shards=1, checks=60, timeout=900), thorough=dict(shards=2, checks=2000, timeout=3000)),
+        dict(name="race", run="^(TestLeaveFinalAndHijack|TestLeaver)$", race=True, quick=dict(shards=1, checks=60, timeout=900), thorough=dict(shards=6, checks=250, timeout=3000)),
     ],
     assumptions=PUPPET_ASSUMPTIONS + [
         "the Leave race is sampled by releasing the call and the accusations at the same virtual instant; which goroutine wins is up to the Go scheduler",
@@ -310,7 +310,7 @@ PROPS["C16"] = dict(
         dict(name="sock", pkg="./props/c12", run="^TestRoundTripSockets$", quick=dict(shards=1, checks=150, timeout=600, env=dict(VF_SOCK_LABEL=1)),
              thorough=dict(shards=2, checks=6000, timeout=3400, env=dict(VF_SOCK_LABEL=1))),
         dict(name="sock-race", pkg="./props/c12", run="^TestRoundTripSockets$", race=True, quick=dict(shards=2, checks=40, timeout=900, env=dict(VF_SOCK_LABEL=1)),
-             thorough=dict(shards=2, checks=1500, timeout=3400, env=dict(VF_SOCK_LABEL=1))),
+             thorough=dict(shards=6, checks=200, timeout=3400, env=dict(VF_SOCK_LABEL=1))),
         dict(name="seedcorpus", kind="plain", run="^Fuzz", quick=dict(shards=1, timeout=300)),
         dict(name="fuzzpkt", kind="fuzz", run="^FuzzLabelPacket$", thorough=dict(fuzztime="120s", timeout=400)),
         dict(name="fuzzstream", kind="fuzz", run="^FuzzLabelStream$", thorough=dict(fuzztime="180s", timeout=500)),
@@ -339,7 +339,7 @@ PROPS["C12"] = dict(
              quick=dict(shards=16, checks=100, timeout=600),
              thorough=dict(shards=16, checks=3000, timeout=3400)),
         dict(name="sock", run="^TestRoundTripSockets$", quick=dict(shards=2, checks=150, timeout=600), thorough=dict(shards=4, checks=6000, timeout=3400)),
-        dict(name="sock-race", run="^TestRoundTripSockets$", race=True, quick=dict(shards=1, checks=40, timeout=900), thorough=dict(shards=2, checks=1500, timeout=3400)),
+        dict(name="sock-race", run="^TestRoundTripSockets$", race=True, quick=dict(shards=1, checks=40, timeout=900), thorough=dict(shards=6, checks=200, timeout=3400)),
         dict(name="seedcorpus", kind="plain", run="^FuzzRoundTrip$", quick=dict(shards=1, timeout=300)),
         dict(name="fuzz", kind="fuzz", run="^FuzzRoundTrip$", thorough=dict(fuzztime="240s", timeout=600)),
     ],
@@ -435,7 +435,7 @@ PROPS["C15"] = dict(
              quick=dict(shards=14, checks=7, timeout=900),
              thorough=dict(shards=14, checks=280, timeout=3400)),
         # a buffer that is still being written to the wire while another send reuses it shows up as a data race long before the unlucky bytes do
-        dict(name="conf-race", run="^TestOutboundConfidentiality$", race=True, quick=dict(shards=2, checks=3, timeout=900), thorough=dict(shards=2, checks=60, timeout=3400)),
+        dict(name="conf-race", run="^TestOutboundConfidentiality$", race=True, quick=dict(shards=2, checks=3, timeout=900), thorough=dict(shards=8, checks=8, timeout=3400)),
     ],
     required_labels=dict(both=["TestOutboundConfidentiality/site:" + s for s in C15_SITES]),
     assumptions=CLUSTER_ASSUMPTIONS + [
@@ -484,7 +484,7 @@ PROPS["C17"] = dict(
         dict(name="concurrent", run="^TestKeyringConcurrent$", quick=dict(shards=4, checks=100, timeout=600), thorough=dict(shards=5, checks=3000, timeout=3400)),
         dict(name="concurrent-race", run="^TestKeyringConcurrent$", race=True, quick=dict(shards=4, checks=60, timeout=600), thorough=dict(shards=5, checks=250, timeout=3400)),
         dict(name="rotation", run="^TestKeyRotation$", quick=dict(shards=8, checks=12, timeout=600), thorough=dict(shards=12, checks=500, timeout=3000)),
-        dict(name="rotation-race", run="^TestKeyRotation$", race=True, quick=dict(shards=4, checks=4, timeout=900), thorough=dict(shards=4, checks=150, timeout=3400)),
+        dict(name="rotation-race", run="^TestKeyRotation$", race=True, quick=dict(shards=4, checks=4, timeout=900), thorough=dict(shards=8, checks=30, timeout=3400)),
     ],
     required_labels=dict(both=["TestKeyringModel/remove-middle-while-held", "TestKeyringModel/remove-on-empty", "TestKeyRotation/different-step-order"]),
     assumptions=CLUSTER_ASSUMPTIONS + ["data races are reported by the Go race detector only on the interleavings that actually occurred"],
@@ -536,11 +536,11 @@ PROPS["C20"] = dict(
           "real-time variant releases 2-6 calls (incl. Leave || Leave, Shutdown || Shutdown, UpdateNode || UpdateNode) truly concurrently with 40 ms probe intervals on a transport whose Shutdown takes 15 ms (every return of Shutdown must find the transport closed); both variants also run under the race detector. The socket variant runs the same kind of call groups against memberlist's own NetTransport on loopback (created by Create, handed over, or hidden behind the plain Transport interface; keyring / SecretKey / label): every Shutdown that returned finds listener and UDP socket closed, the same port can be reused at once, a Create that gets only one of its two ports leaves nothing behind, and 10 s after all nodes were shut down no goroutine is inside memberlist. non-trivial = a concurrent group of >= 2 calls or a call at the left-and-reaped stage"),
     tests=[
         dict(name="life", run="^TestLifecycle$", quick=dict(shards=10, checks=120, timeout=600), thorough=dict(shards=10, checks=5000, timeout=3400)),
-        dict(name="life-race", run="^TestLifecycle$", race=True, quick=dict(shards=3, checks=25, timeout=900), thorough=dict(shards=3, checks=800, timeout=3400)),
+        dict(name="life-race", run="^TestLifecycle$", race=True, quick=dict(shards=3, checks=25, timeout=900), thorough=dict(shards=8, checks=80, timeout=3400)),
         dict(name="known", kind="plain", run="^TestKnownStreamOutlivesShutdown$", quick=dict(shards=1, timeout=300)),
-        dict(name="rt-race", run="^TestLifecycleRealtime$", race=True, quick=dict(shards=3, checks=40, timeout=900), thorough=dict(shards=3, checks=1500, timeout=3400)),
+        dict(name="rt-race", run="^TestLifecycleRealtime$", race=True, quick=dict(shards=3, checks=40, timeout=900), thorough=dict(shards=8, checks=300, timeout=3400)),
         dict(name="sock", run="^TestLifecycleSockets$", quick=dict(shards=2, checks=60, timeout=600), thorough=dict(shards=4, checks=3000, timeout=3400)),
-        dict(name="sock-race", run="^TestLifecycleSockets$", race=True, quick=dict(shards=1, checks=25, timeout=900), thorough=dict(shards=2, checks=800, timeout=3400)),
+        dict(name="sock-race", run="^TestLifecycleSockets$", race=True, quick=dict(shards=1, checks=25, timeout=900), thorough=dict(shards=6, checks=120, timeout=3400)),
     ],
     required_labels=dict(both=["TestLifecycleSockets/sock-shutdown", "TestLifecycleSockets/sock-restart", "TestLifecycleSockets/sock-halfbound-1",
                                "TestLifecycleSockets/sock-mode-0", "TestLifecycleSockets/sock-mode-2"]),
@@ -570,7 +570,7 @@ PROPS["C09"] = dict(
     tests=[
         dict(name="aon", run="^TestAllOrNothing$", quick=dict(shards=12, checks=250, timeout=600), thorough=dict(shards=12, checks=8000, timeout=3400)),
         dict(name="mutual", run="^TestMutualJoin$", quick=dict(shards=3, checks=80, timeout=600), thorough=dict(shards=3, checks=2700, timeout=3000)),
-        dict(name="race", run="^(TestAllOrNothing|TestMutualJoin)$", race=True, quick=dict(shards=1, checks=40, timeout=900), thorough=dict(shards=2, checks=1200, timeout=3000)),
+        dict(name="race", run="^(TestAllOrNothing|TestMutualJoin)$", race=True, quick=dict(shards=1, checks=40, timeout=900), thorough=dict(shards=6, checks=250, timeout=3000)),
         # exchanges refused at the concurrency cap must leave nothing behind either: once the pending ones are gone an honest exchange is served again
         dict(name="cap", pkg="./props/c13", run="^(TestConcurrentPushPullCap|TestCutExchangesLeaveNothing)$", quick=dict(shards=1, checks=40, timeout=600), thorough=dict(shards=2, checks=600, timeout=3000)),
     ],
